@@ -897,6 +897,23 @@ theorem redeclared_defaults_are_order_dependent :
     obs [.decl 0 ⟨0, [], [i, fl], 1⟩, .decl 0 ⟨1, [], [fl], 1⟩, .redecl 0 2, .site 0 [] arg] = [(3, .verdict (.accepted 0))] := by
   decide
 
+/-- **Witness against the property, function templates** (replayed by corpus/C16.txt, recorded in known_findings.jsonl).
+    `template<typename T> R0 f(T a);` followed by its definition `template<typename T> R0 f(T a) { .. }` - one function
+    template, declared and then defined - and the call `f(x)`: the two declarations are two overloads for the type
+    checker (`elaborate`), both match exactly, the call is *ambiguous between the function and itself*; the same call
+    between the two declarations is accepted.  With parameter types that mention no template parameter the later
+    declaration is combined with the first (`redecl`), and the call after both is accepted. -/
+theorem redeclared_template_is_a_second_overload :
+    let t : TCand := ⟨0, [.type], [⟨.tvar 0, .in⟩], 1⟩
+    let u : TCand := ⟨0, [.type], [⟨.conc ⟨{}, .scalar .int32⟩, .in⟩], 1⟩
+    let arg : List ETy := [⟨⟨{}, .scalar .int32⟩, .lvalue⟩]
+    let obs := fun (u : List SeqItem) => (runSeq .free (elaborate u)).map (fun x => (x.1, x.2.normalize))
+    obs [.decl 0 t, .site 0 [] arg, .redecl 0 1, .site 0 [] arg] =
+      [(1, .verdict (.accepted 0)), (3, .verdict (.ambiguous [0, 0]))] ∧
+    obs [.decl 0 u, .site 0 [.type ⟨{}, .scalar .int32⟩] arg, .redecl 0 1, .site 0 [.type ⟨{}, .scalar .int32⟩] arg] =
+      [(1, .verdict (.accepted 0)), (3, .verdict (.accepted 0))] := by
+  decide
+
 /-- non-vacuity, and the shape of the seeded defect "memoised resolution": `f(float)`; call `f(int_var)`; `f(int)`;
     the same call again, once more after the definition of `f(float)`, and from inside a template instantiated before
     and after: the second call sees two candidates and selects the exact one -/
